@@ -123,7 +123,7 @@ def run(ctx):
 
     # ---- code -> spec: recorded random programs validated by TLC against Trace_Paging.tla
     tconsts = {"MaxPages": 6, "MaxRows": 3, "MaxIdx": 1}
-    n_tr = 1500 if ctx.quick else 20000
+    n_tr = 800 if ctx.quick else 20000
     traces, kinds = [], []
     for _ in range(n_tr):
         kind, ev = rp.record(ctx.rng)
